@@ -119,14 +119,15 @@ class Resource(PropertyTreeNode):
         Args:
             scenario_idx: The scenario index
         """
-        # Recursively descend into all child resources
-        for child in self.children:
-            if hasattr(child, "finishScheduling"):
-                child.finishScheduling(scenario_idx)
-
+        # The scenario object descends into the child resources itself (doing it here
+        # as well visited every resource 2^depth times in nested groups)
         scenario = self.data[scenario_idx]
         if scenario:
             scenario.finishScheduling()
+        else:
+            for child in self.children:
+                if hasattr(child, "finishScheduling"):
+                    child.finishScheduling(scenario_idx)
 
     def bookedEffort(self, scenario_idx: int) -> float:
         """
